@@ -97,9 +97,16 @@ def cases(tier, seed, ctx=None):
             extra = rng.choice([256, 512, 255, 257, 768])
             hv = b"Basic " + base64.b64encode(u + b":" + p + rng.bytes(extra, b"abcxyz019")); tag = "password-plus-%d" % extra
         lines = [b"Host: h"]
+        method = b"GET"
+        if rng.chance(1, 5):
+            # other methods, and the headers of a CORS preflight / a protocol upgrade: the gate looks at the credentials only
+            method = rng.choice([b"OPTIONS", b"OPTIONS", b"HEAD", b"POST", b"DELETE", b"TRACE"])
+            extra = [b"Origin: https://app.example", b"Access-Control-Request-Method: POST", b"Access-Control-Request-Headers: authorization",
+                     b"Upgrade: websocket", b"Connection: Upgrade", b"X-Requested-With: XMLHttpRequest"]
+            lines += extra[:3] if rng.chance(1, 2) else [x for x in extra if rng.chance(1, 2)]
         if hv is not None:
             lines.insert(rng.below(2), rng.choice([b"Authorization", b"authorization", b"AUTHORIZATION"]) + b": " + hv)
-        head = b"GET /x HTTP/1.1\r\n" + b"\r\n".join(lines) + b"\r\n\r\n"
+        head = method + b" /x HTTP/1.1\r\n" + b"\r\n".join(lines) + b"\r\n\r\n"
         ops = [G.Construct] + [G.Feed(s) for s in rng.partition(head)] + [G.Turn]
         meta = [9, realm, table, hv if hv is not None else b"", 1 if hv is not None else 0]
         yield ("bauth", [realm, table, ops, env, meta], tag)
